@@ -84,3 +84,10 @@ def gen_xtab2d(rng, it, c):
         d[cat] = []
     return {"zone_values": np.array(zv, dtype="float64"), "unique_cats": np.array(cats, dtype="float64"),
             "cat_ids": np.array(sel, dtype="float64"), "nodata_values": rng.choice([float("nan"), 77.0]), "crosstab_dict": d}
+
+
+def gen_transform_points(rng, it, c):
+    n = rng.randint(0, 5)
+    pts = np.array([[rng.choice([0.0, 1.0, 2.0, 3.0, 5.0]), rng.choice([0.0, 1.0, 4.0])] for _ in range(n)], dtype="float64").reshape(n, 2)
+    tr = np.array([rng.choice([1.0, 2.0, 0.0, -1.5]) for _ in range(6)], dtype="float64")
+    return {"pts": pts, "transform": tr}
